@@ -6,6 +6,7 @@
 use std::time::{Duration, Instant};
 
 mod c05;
+mod c10;
 mod c14;
 
 fn main() {
@@ -18,6 +19,8 @@ fn main() {
         "pos_allow" => c05::pos_allow(rest),
         "rl_window" => c05::rl_window(rest),
         "style_build" => c14::style_build(rest),
+        "template_total" => c10::template_total(rest),
+        "template_order" => c10::template_order(rest),
         _ => format!("{{\"found\": false, \"error\": \"unknown routine {}\"}}", routine),
     };
     println!("{}", out);
